@@ -68,6 +68,35 @@ class Inconclusive(Exception):
     pass
 
 
+class WatchdogTimeout(BaseException):
+    """Raised inside a case by the wall-clock watchdog (SIGALRM)."""
+
+
+class _Watchdog(object):
+    def __init__(self, ck, seconds, what):
+        self.ck, self.seconds, self.what = ck, seconds, what
+
+    def _fire(self, signum, frame):
+        raise WatchdogTimeout(self.what)
+
+    def __enter__(self):
+        import signal
+        self._old = signal.signal(signal.SIGALRM, self._fire)
+        signal.setitimer(signal.ITIMER_REAL, self.seconds)
+        return self
+
+    def __exit__(self, et, ev, tb):
+        import signal
+        signal.setitimer(signal.ITIMER_REAL, 0)
+        signal.signal(signal.SIGALRM, self._old)
+        if et is WatchdogTimeout:
+            # wall-clock deadlines never decide: a case that did not finish is inconclusive
+            self.ck.inconclusive_because("wall-clock watchdog (%ds) fired in: %s" % (self.seconds, self.what))
+            self.ck.observe("watchdog-fired")
+            return True
+        return False
+
+
 class Check(object):
     """Context handed to every check's run(ck)."""
 
@@ -115,7 +144,11 @@ class Check(object):
         return self.budget_s - (time.time() - self.t0)
 
     def out_of_time(self):
-        return self.time_left() <= 0
+        return self.time_left() <= 0 or bool(self.observations.get("watchdog-fired"))
+
+    def watchdog(self, seconds=180, what="case"):
+        """with ck.watchdog(120, "case 17"): ...  -- generous wall-clock guard around one case."""
+        return _Watchdog(self, seconds, what)
 
     # --- recording
     def case(self, cls="case", key=None, nontrivial=True, sample=None):
